@@ -5,6 +5,7 @@ use crate::sk::*;
 use crate::stat::*;
 use probminhash::jaccard::compute_probminhash_jaccard;
 use rand::Rng as _;
+use rayon::prelude::*;
 use serde_json::json;
 
 struct Cell {
@@ -137,6 +138,62 @@ pub fn run(rep: &mut Report) {
             rep.distinct.insert(mix(&[c.v as u64, c.m as u64, digest_f64s(&c.spec.wa), digest_f64s(&c.spec.wb), fnv64(entry_name(c.entry).as_bytes())]));
         }
         record_cell(rep, "C01", &c.name, &rs, trials * 2, case);
+    }
+    // ---------------- register law: for a single item of weight w every register is Exp(w/m), independently per position
+    // (this is what makes position p hold item d with probability w_d / sum(w) for every weight vector)
+    for v in ALL_PV {
+        for m in [2usize, 3, 8, 64, 1024] {
+            let cell = format!("register_law/{}/m={}", v.name(), m);
+            if !rep.want(&cell) {
+                continue;
+            }
+            let nsamples: u64 = rep.tier.pick(1_500_000, 20_000_000);
+            let mut n = nsamples;
+            for stage in 1..=3u64 {
+                let seed = subseed(rep.seed, &cell, &[stage]);
+                let nsk = (n / m as u64).max(64);
+                let mut us: Vec<f64> = (0..64u64)
+                    .into_par_iter()
+                    .flat_map_iter(|c| {
+                        let mut rng = rng_from(mix(&[seed, c]));
+                        let mut out = Vec::with_capacity((nsk / 64) as usize * m);
+                        for _ in 0..nsk / 64 {
+                            let id = fresh_ids(&mut rng, 1, 0)[0];
+                            let w = 10f64.powf(rng.random_range(-3.0..3.0));
+                            let (_s, reg) = pmh(v, Hs::Fnv, m, &[(id, w)], entries_for(v)[0], 0);
+                            // variant 2: order statistics of m iid Exp(w/m); variants 3/3a/3aSha: one truncated-exponential point per unit
+                            // interval and a geometric number of intervals until the slot is drawn: Exp(w * ln(m/(m-1)))
+                            let rate = if v == Pv::P2 { w / m as f64 } else { w * (m as f64 / (m as f64 - 1.)).ln() };
+                            for r in reg {
+                                out.push(-(-r * rate).exp_m1());
+                            }
+                        }
+                        out
+                    })
+                    .collect();
+                rep.evaluations += us.len() as u64;
+                us.sort_by(|a, b| a.partial_cmp(b).unwrap());
+                let ks = ks_sqrtn_d(&us, |x| x.clamp(0., 1.));
+                rep.cells.push(json!({"cell": cell, "stage": stage, "registers": us.len(), "ks_sqrtN_D": ks}));
+                if stage == 1 {
+                    rep.distinct.insert(mix(&[v as u64, m as u64, 0xE1]));
+                }
+                if stage == 1 && ks < 1.95 {
+                    break;
+                }
+                if stage > 1 && ks >= 3.2 {
+                    rep.violation("C01/register-law", &cell, format!("{} m={}: registers of single-item sketches do not follow the exponential law of the variant: sqrt(N)*D = {:.2} over {} registers (stage {})", v.name(), m, ks, us.len(), stage), json!({"variant": v.name(), "m": m}));
+                    break;
+                }
+                if stage > 1 && ks < 1.95 {
+                    break;
+                }
+                if stage == 3 {
+                    rep.inconclusive.push(format!("cell={} KS stayed between thresholds ({:.2})", cell, ks));
+                }
+                n *= 4;
+            }
+        }
     }
     collect_ticks(rep);
     rep.assumptions.push("identifiers are fresh random u64 per trial, hashed by the crate's own hasher (Fnv / NoHash / Sha512_256); the sketchers are never re-seeded".into());
